@@ -129,9 +129,11 @@ def hs_key(c):
     return tuple(c[f] for f in HS_FIELDS)
 
 
-def tlc_hs(wd, tr, rng):
-    sample = []
-    if tr == "quick":
+def tlc_hs(wd, tr, rng, forced=None):
+    sample = [Rec(**{f: c[f] for f in HS_FIELDS}) for c in (forced or [])]
+    if forced:
+        tr = "quick"
+    elif tr == "quick":
         seen = set()
         while len(sample) < 4000:
             c = {f: rng.choice(DIMS[f]) for f in DIMS}
@@ -303,11 +305,12 @@ def run_c16(pid, only_cases=None):
     wd = vlib.scratch(pid)
     rng = random.Random(vlib.seed())
     verdict = vlib.Verdict(pid)
-    r, cases, consts = tlc_hs(wd, tr, rng)
+    r, cases, consts = tlc_hs(wd, tr, rng, forced=only_cases)
     log("net hs model: %r, %d handshake variants" % (r, len(cases)))
     enumerated = len(cases)
     if only_cases is not None:
-        cases = [c for c in cases if hs_key(c) in only_cases]
+        wanted = set(hs_key(c) for c in only_cases)
+        cases = [c for c in cases if hs_key(c) in wanted]
         if not cases:
             raise vlib.CheckError("the replayed handshake variant is not in the catalogue")
     # variants for which the model predicts a crash run one per process from the start (scheduling only; the verdict never uses it)
@@ -770,8 +773,7 @@ def replay(pid, path):
     with open(path) as f:
         o = json.load(f)
     if o.get("kind") == "hs":
-        os.environ["VERIF_TIER"] = "thorough"      # the whole catalogue, so that the variant is in it
-        return run_c16(pid, only_cases={tuple(o["case"][f] for f in HS_FIELDS)})
+        return run_c16(pid, only_cases=[o["case"]])
     if o.get("kind") == "fr":
         s = o["scenario"]
         s["id"] = 0
